@@ -71,7 +71,7 @@ MANIFEST = {
 }
 CONFIGS = {
     "quick": [("valid", 1500), ("mutated", 4500), ("files", 500),
-              ("boundary", 220), ("extended", 300)],
+              ("boundary", 320), ("extended", 300)],
     "thorough": [("valid", 2), ("mutated", 6), ("files", 2),
                  ("boundary", 2), ("extended", 1)],
 }
@@ -120,7 +120,7 @@ def _edges(rng, n, p, directed=False, dag=False):
 
 
 def _kth(n, es, kind):
-    lines = ["c a %s graph" % kind, str(n)]
+    lines = ["c a %s graph%s" % (kind, " caf\u00e9" if n % 2 else ""), str(n)]
     for v in range(1, n + 1):
         if kind == "simple":
             nb = sorted([a for a, b in es if b == v] +
@@ -214,7 +214,8 @@ def make_files(rng):
         entries[name] = {"kind": "file", "data": text}
         index["bipartite"].append((name, fmt))
     nv, cl = cnfref.random_cnf(rng, max_vars=5, max_clauses=6)
-    text = "c a formula\np cnf %d %d\n" % (nv, len(cl)) + "".join(
+    text = "c a formula%s\np cnf %d %d\n" % (
+        rng.choice(["", "", " caf\u00e9", " \u2028x"]), nv, len(cl)) + "".join(
         " ".join(map(str, c)) + " 0\n" for c in cl)
     entries["f.cnf"] = {"kind": "file", "data": text}
     index["cnf"].append("f.cnf")
@@ -417,6 +418,9 @@ def generate(rng, config):
     if config == "extended":
         case["extended"] = rng.choice(["stdout_epipe", "stdout_enospc",
                                        "outfile_enospc", "stdin_eio"])
+    # the locale of the process (what open() without an encoding uses)
+    case["locale"] = rng.choice([None, None, None, "ascii", "latin-1",
+                                 "cp1252"])
     return case
 
 
@@ -599,7 +603,10 @@ def _fs_for(case, faults, ctx):
     for name, fault, seed in faults:
         apply_file_fault(entries, name, fault, _random.Random(seed))
         ctx.fault("file:" + fault)
-    return SimFS(entries, on_fire=ctx.fault)
+    fs = SimFS(entries, on_fire=ctx.fault)
+    if case.get("locale"):
+        fs.locale_encoding = case["locale"]
+    return fs
 
 
 def _one(case, ctx, faults):
@@ -671,6 +678,25 @@ def execute(case, ctx):
                 c2["mutations"] = ["boundary"]
                 ctx.fault("argv:boundary")
                 _one(c2, ctx, [])
+        # legal ranges often relate two neighbouring numbers (k <= n,
+        # d < N, m <= max): each number also takes the value of its
+        # neighbour, one more and one less
+        for i in idx:
+            for j in (i - 1, i + 1):
+                if j not in idx:
+                    continue
+                try:
+                    other = int(float(argv[j]))
+                except ValueError:
+                    continue
+                for v in (other, other + 1, other - 1):
+                    if str(v) == argv[i] or abs(v) > 64:
+                        continue
+                    c2 = dict(base)
+                    c2["argv"] = argv[:i] + [str(v)] + argv[i + 1:]
+                    c2["mutations"] = ["boundary"]
+                    ctx.fault("argv:boundary-relative-to-neighbour")
+                    _one(c2, ctx, [])
         return
     if case["file_faults"] == "all":
         names = [a for a in argv if a in case["files"] and
